@@ -60,8 +60,16 @@ def mk_value(s):
     raise AssertionError(t)
 
 
+TYPES = {}
+
+
 def mk_exc(spec):
-    cls = type(spec["name"], (BASES[spec["base"]],), {})
+    # one class object per (name, base) for the whole run: classifiers must be functions of the exception, so answers may
+    # not depend on which classifier saw an exception type first (per-type caches, registries)
+    key = (spec["name"], spec["base"])
+    if key not in TYPES:
+        TYPES[key] = type(spec["name"], (BASES[spec["base"]],), {})
+    cls = TYPES[key]
     e = cls()
     e.args = tuple(mk_value(a) for a in spec["args"])     # OSError subclasses rearrange constructor arguments
     for k, v in spec["attrs"].items():
@@ -81,8 +89,15 @@ if __name__ == "__main__":
     out = []
     for spec in json.load(sys.stdin):
         e = mk_exc(spec)
-        out.append({"default": call(default_classifier, e), "strict": call(strict_classifier, e), "http": call(http_classifier, e),
-                    "sqlstate": call(sqlstate_classifier, e), "pyodbc": call(pyodbc_classifier, e),
-                    "optional": {n: call(f, e) for n, (m, f) in OPTIONAL.items() if ABSENT[n]},
-                    "absent": sorted(n for n in ABSENT if ABSENT[n])})
+        r = {"default": call(default_classifier, e), "strict": call(strict_classifier, e), "http": call(http_classifier, e),
+             "sqlstate": call(sqlstate_classifier, e), "pyodbc": call(pyodbc_classifier, e),
+             "optional": {n: call(f, e) for n, (m, f) in OPTIONAL.items() if ABSENT[n]},
+             "absent": sorted(n for n in ABSENT if ABSENT[n])}
+        # asked again in the opposite order, every classifier must repeat its answer
+        for name, f in (("pyodbc", pyodbc_classifier), ("sqlstate", sqlstate_classifier), ("http", http_classifier),
+                        ("strict", strict_classifier), ("default", default_classifier)):
+            again = call(f, e)
+            if again != r[name]:
+                r[name] = f"unstable:{r[name]}->{again}"
+        out.append(r)
     json.dump(out, sys.stdout)
